@@ -1,9 +1,9 @@
 SPECIFICATION Spec
 CONSTANTS
-  Cfgs <- MC_CfgsFixed
+  Cfgs <- MC_CfgsThorough
   Lens <- MC_LensT
   Ds <- MC_DsT
-  MaxEx = 4
+  MaxEx = 5
   MaxFaults = 3
   MaxStepFaults = 2
   Vs <- MC_VsFixed
